@@ -1694,6 +1694,9 @@ def run_wdiag(ctx: Ctx, pending, configs):
             w_ = torch.randint(-8, 9, ws, generator=g).to(torch.float64) if len(ws) else torch.tensor(2.0, dtype=torch.float64)
             if len(ws) >= 2 and ws[-1] == ws[-2]:
                 w_ = w_ + w_.transpose(-1, -2)       # the property quantifies over symmetric (SPD) weights
+                if cfg.get("near"):                  # (36) a hair away from I / c·I / a diagonal / one common block
+                    w_ = torch.tensor(near_blocks(random.Random(cfg["data_seed"]), int(math.prod(ws[:-2])), ws[-1], *cfg["near"]),
+                                      dtype=torch.float64).reshape(ws)
             Ws.append(w_.contiguous())
         ncol = 2
         Js = [torch.randn(int(math.prod(rs)), ncol, generator=g, dtype=torch.float64) for rs in cfg["rshapes"]]
@@ -1719,7 +1722,7 @@ def run_wdiag(ctx: Ctx, pending, configs):
                 want = torch.cat([torch.einsum("tab,tb->ta", bcast_weight(w, rs), item_view(r.reshape(-1), rs)).reshape(-1)
                                   for r, w, rs in zip(Rs, Ws, cfg["rshapes"])])
                 got = impl @ Rcat if impl.shape[1] == Rcat.numel() else None
-                if got is None or not torch.allclose(got, want, rtol=0, atol=1e-9):
+                if got is None or not bool(((got - want).abs() <= 1e-13 * (1 + want.abs() + max(float(w.abs().max()) for w in Ws) * Rcat.abs().max())).all()):
                     ctx.fail(case, f"weight: block-diagonal expansion of weight shapes {cfg['wshapes']} for residual shapes {cfg['rshapes']} "
                                    f"does not apply W_i to residual item i")
 
@@ -1763,6 +1766,9 @@ def wdiag_configs(rng, quick):
                 seed += 1
                 cfgs.append({"rshapes": [b + [d]], "wshapes": [b[len(b) - j:] + [d, d]], "data_seed": seed, "documented": True,
                              "aslist": rng.random() < 0.5})
+                if rng.random() < 0.3:
+                    seed += 1
+                    cfgs.append({**cfgs[-1], "data_seed": seed, "near": [rng.choice(["I", "I", "cI", "diag", "const"]), rng.choice(NEAR_RELS)]})
     # two residuals
     for _ in range(12 if quick else 60):
         seed += 1
@@ -1773,6 +1779,8 @@ def wdiag_configs(rng, quick):
             j = rng.randint(0, len(b))
             rs.append(b + [d]); ws.append(b[len(b) - j:] + [d, d])
         cfgs.append({"rshapes": rs, "wshapes": ws, "data_seed": seed, "documented": True})
+        if rng.random() < 0.5:
+            cfgs[-1]["near"] = [rng.choice(["I", "I", "cI", "diag", "const"]), rng.choice(NEAR_RELS)]
     # malformed: scalar weights for d = 1, wrong d, 0-dim, non-dividing batch
     mal = [([4, 1], [4]), ([2, 4, 1], [4]), ([3, 2], [3, 3]), ([3, 2], []), ([], [1, 1]), ([5, 2], [2, 2, 2]), ([4, 2], [3, 2, 2]),
            ([2, 3], [2, 3]), ([2, 1], [1]), ([6], [6, 6]), ([6], [3, 3]), ([2, 2], [2, 1, 2, 2])]
@@ -1807,7 +1815,33 @@ def gen_spd(rng, d, mag=None):
     return [[mag * M[i][j] for j in range(d)] for i in range(d)]
 
 
-def gen_weight(rng, shapes, dtype, force_suffix=None, layouts=0.0, wide=False, layout=None, alias=0.0, zero_block=0.0, asym=0.0):
+NEAR_RELS = [1e-3, 9e-6, 9.9e-6, 3e-6, 1e-6, 1e-7, 1e-8, 1e-10, 1e-12, 1e-14]
+
+
+def near_blocks(rng, nb, d, base, rel):
+    """(36) SPD blocks at relative distance `rel` from the identity / a multiple of it / a diagonal matrix / one common block:
+    diagonal entries off by rel·u, off-diagonal entries by 1e-3·rel·u (inside the band of an `allclose` with default
+    tolerances for rel <= 1e-5, far above round-off in float64)"""
+    if base == "I":
+        B0 = torch.eye(d, dtype=torch.float64)
+    elif base == "cI":
+        B0 = rng.choice([0.5, 2.0, 1e-3, 1e3]) * torch.eye(d, dtype=torch.float64)
+    elif base == "diag":
+        B0 = torch.diag(torch.tensor([rng.choice([0.3, 1.0, 1.0, 4.0]) for _ in range(d)], dtype=torch.float64))
+    else:
+        B0 = torch.tensor(gen_spd(rng, d, 1.0), dtype=torch.float64)
+    out = []
+    for _ in range(nb):
+        U_ = torch.tensor([[rng.uniform(-1, 1) for _ in range(d)] for _ in range(d)], dtype=torch.float64)
+        U_ = (U_ + U_.T) / 2
+        sc = torch.full((d, d), 1e-3, dtype=torch.float64) + (1 - 1e-3) * torch.eye(d, dtype=torch.float64)
+        scale = B0.abs() if base == "const" else B0.diagonal().abs().max() * torch.ones(d, d, dtype=torch.float64)
+        out.append(B0 + rel * sc * U_ * scale)
+    return torch.stack(out).reshape(-1).tolist()
+
+
+def gen_weight(rng, shapes, dtype, force_suffix=None, layouts=0.0, wide=False, layout=None, alias=0.0, zero_block=0.0, asym=0.0, near=0.0,
+               near_base=None, near_rel=None):
     """SPD weights, one per residual, in a documented shape (suffix of the batch shape + (d, d)).  `layouts` = probability
     of a non-contiguous memory layout, `layout` forces one, `alias` = probability that two residuals share one tensor"""
     ws = []
@@ -1826,6 +1860,10 @@ def gen_weight(rng, shapes, dtype, force_suffix=None, layouts=0.0, wide=False, l
         for _ in range(nb):
             mag = rng.choice([1e-8, 1e8, 1e-5, 1e5]) if (wide and rng.random() < 0.5) else None
             vals += [x for row in gen_spd(rng, d, mag) for x in row]
+        near_used = None
+        if rng.random() < near:
+            near_used = (near_base or rng.choice(["I", "I", "cI", "diag", "const"]), near_rel or rng.choice(NEAR_RELS))
+            vals = near_blocks(rng, nb, d, *near_used)
         t = torch.tensor(vals, dtype=torch.float64).to(U.dt(dtype)).to(torch.float64)
         if rng.random() < asym and d >= 2:       # (36) NEARLY symmetric: a relative asymmetry of 1e-6 (between round-off and 1e-5)
             tt = t.reshape(nb, d, d)
@@ -1837,6 +1875,8 @@ def gen_weight(rng, shapes, dtype, force_suffix=None, layouts=0.0, wide=False, l
         spec = {"shape": wb + [d, d], "values": t.tolist()}
         if asym_used:
             spec["asym"] = True
+        if near_used:
+            spec["near"] = list(near_used)
         lay = layout if layout is not None else (rng.choice(["mT", "slice", "tbatch", "bslice", "expand"]) if rng.random() < layouts else "contig")
         if lay == "expand":
             if j < len(batch):      # the same values, presented as the next longer documented shape through expand()
@@ -2084,7 +2124,8 @@ def make_case(rng, **force):
     # weights
     wmode = force.get("wmode", rng.choice(["none", "none", "ctor", "ctor", "step", "both"]))
     wkw = dict(layouts=force.get("wlayouts", 0.2), wide=rng.random() < force.get("wide", 0.06) * 2, layout=force.get("wlayout"),
-               alias=force.get("alias", 0.3), zero_block=force.get("zero_block", 0.04), asym=force.get("asym", 0.06) if dtype == "float64" else 0.0)
+               alias=force.get("alias", 0.3), zero_block=force.get("zero_block", 0.04), asym=force.get("asym", 0.06) if dtype == "float64" else 0.0,
+               near=force.get("near", 0.25), near_base=force.get("near_base"), near_rel=force.get("near_rel"))
     case["weight_ctor"] = gen_weight(rng, shapes, dtype, force.get("wsuffix"), **wkw) if wmode in ("ctor", "both") else None
     case["weight_step"] = gen_weight(rng, shapes, dtype, force.get("wsuffix"), **wkw) if wmode in ("step", "both") else None
     case["wstyle"] = rng.choice(["list", "tuple", "tensor"])
@@ -3073,6 +3114,7 @@ def corner_cases():
         for ki, (km, tg) in enumerate((("none", "near"), ("auto", "none"), ("fast", "near"))):
             for opt in (("GN", "LM")[(ai + ki) % 2],):
                 out.append(make_case(rng, opt=opt, alias_model=am, kmode=km, target=tg, tscale=0.5, nres=2 if am == "input" else 1,
+                                     kernel_spec={"name": "Cauchy", "args": [0.5]},
                                      ptypes=[["E", 3], ["G", "SE3"]], ncalls=2, nbad=1 if opt == "LM" else 0, **q5))
     # (30) targets of every dtype torch promotes with the parameters' dtype
     for td_ in ("int64", "int32", "int16", "int8", "uint8", "float16", "bfloat16", "float32"):
@@ -3085,6 +3127,20 @@ def corner_cases():
         c = make_case(rng, opt=opt, bshape=[3], full=True, ncalls=1, nbad=0, **{**q5, "dup": 1.0, "dup_near": 1.0, "dtype": "float64"})
         out.append(c)
         out.append(make_case(rng, opt=opt, ptypes=[["S"], ["E", 3], ["G", "SO3"]], nres=2, ncalls=1, nbad=1, **{**q5, "dtype": "float64", "wide": 1.0}))
+    # (36, seed C07-5) SPD weights a hair away from the identity / c·I / a diagonal / one common block, every documented shape,
+    # constructor and per step, GN and LM: the step still uses the weight that was passed
+    q5n = {**q5, "near": 1.0}
+    for opt in ("GN", "LM"):
+        for wm in ("ctor", "step"):
+            for ws in (0, 1, 2):
+                out.append(make_case(rng, opt=opt, wmode=wm, wsuffix=ws, bshape=[2, 3] if ws == 2 else [3], full=True, nres=1, ncalls=1, nbad=0,
+                                     kmode="none", target="near", tscale=1.0, **{**q5n, "dtype": "float64", "near_base": "I",
+                                                                                  "near_rel": (9e-6, 1e-6, 1e-7)[ws]}))
+            out.append(make_case(rng, opt=opt, wmode=wm, wsuffix=1, bshape=[3], full=True, nres=2, ncalls=1, nbad=0, kmode="none",
+                                 target="near", tscale=1.0, **{**q5n, "dtype": "float32", "near_base": "I", "near_rel": 9.9e-6}))
+        for nb_, rel_ in (("cI", 9e-6), ("diag", 1e-6), ("const", 9e-6), ("const", 1e-8), ("I", 1e-3), ("I", 1e-10)):
+            out.append(make_case(rng, opt=opt, wmode=rng.choice(["ctor", "step", "both"]), bshape=[3], full=True, ncalls=1, nbad=0,
+                                 target="near", tscale=1.0, **{**q5n, "dtype": "float64", "near_base": nb_, "near_rel": rel_}))
     # (29)/(33) optional arguments omitted; `weight` provided as a property of a user subclass
     for opt in ("GN", "LM"):
         out.append(make_case(rng, opt=opt, kmode="none", wmode="none", ncalls=2, nbad=0, **{**q5, "omit": 1.0}))
